@@ -16,7 +16,7 @@ import (
 // same inequality (or of its negation) is the same atom.
 func c12Orphans(c *core.Check) {
 	p := c.Prog
-	r := c.Rule("R6", "orphans and widows (CSS 2.1 §13.3.3): a break between lines is refused exactly when fewer than `orphans` lines would stay or fewer than `widows` lines would go — findEarlierPageBreak keeps len − widows lines and gives up iff len − widows < orphans; breakLine cancels the box iff len < orphans, or the lines that must move to satisfy widows exceed len − orphans; each test is compared as a normalised linear inequality", 6)
+	r := c.Rule("R6", "orphans and widows (CSS 2.1 §13.3.3): a break between lines is refused exactly when fewer than `orphans` lines would stay or fewer than `widows` lines would go — findEarlierPageBreak keeps len − widows lines and gives up iff len − widows < orphans; breakLine cancels the box iff len < orphans, or the lines that must move to satisfy widows exceed len − orphans; each test is compared as a normalised linear inequality", 4)
 	want := map[string][]string{
 		"findEarlierPageBreak": {"len(children) - orphans - widows < 0"},
 		"breakLine": {
